@@ -36,7 +36,10 @@ class Batch:
     def describe(self):
         def d(a):
             if isinstance(a, torch.Tensor):
-                return {"shape": list(a.shape), "dtype": str(a.dtype).replace("torch.", ""), "data": a.tolist()}
+                r = {"shape": list(a.shape), "dtype": str(a.dtype).replace("torch.", ""), "data": a.detach().tolist()}
+                if a.requires_grad and a.grad_fn is not None:
+                    r["grad"] = "non-leaf"       # attached to an autograd graph (registry.grad_variant)
+                return r
             return copy.deepcopy(a)      # a picture of the argument NOW (the callee may rewrite the caller's list later)
         return {"args": [d(a) for a in self.args], "kwargs": {k: d(v) for k, v in self.kwargs.items()}}
 
@@ -46,7 +49,8 @@ class Batch:
         python scalars / strings / (nested) lists as they are."""
         def u(a):
             if isinstance(a, dict) and {"shape", "dtype", "data"} <= set(a):
-                return torch.tensor(a["data"], dtype=getattr(torch, a["dtype"])).reshape(tuple(a["shape"]))
+                t = torch.tensor(a["data"], dtype=getattr(torch, a["dtype"])).reshape(tuple(a["shape"]))
+                return t.requires_grad_(True) * 1.0 if a.get("grad") == "non-leaf" else t
             return a
         return cls(tuple(u(a) for a in d["args"]), {k: u(v) for k, v in (d.get("kwargs") or {}).items()})
 
@@ -612,6 +616,18 @@ def f64_variant(b: Batch, salt: int = 1) -> Batch:
             if not done[0]:
                 done[0] = True
                 a = a * f
+        return a
+    return Batch(tuple(conv(a) for a in b.args), {k: conv(v) for k, v in b.kwargs.items()})
+
+
+def grad_variant(b: Batch) -> Batch:
+    """the same batch with every floating tensor argument attached to an autograd graph: a NON-LEAF tensor that requires grad
+    (x·1 of a leaf that requires grad) — what a model hands over when the caller did not detach its output.  Values are
+    unchanged; a metric that keeps such a tensor in its state keeps the graph alive and cannot be deep-copied."""
+    def conv(a):
+        if isinstance(a, torch.Tensor) and a.is_floating_point():
+            leaf = a.detach().clone().requires_grad_(True)
+            return leaf * 1.0
         return a
     return Batch(tuple(conv(a) for a in b.args), {k: conv(v) for k, v in b.kwargs.items()})
 
